@@ -294,6 +294,7 @@ class Parser:
                     else:
                         self._parse_subtree(current)
                         self._assert_and_cunsume(TokenType.BRACKET_RIGHT)
+                        flag = True
 
                 case TokenType.BRACKET_RIGHT:
                     break
@@ -312,8 +313,14 @@ class Parser:
                     flag = True
 
                 case TokenType.OR:
-                    current = root
-                    self._read_token()
+                    if not flag:
+                        # `( |`: the bracket just read opened a split whose
+                        # first alternative is empty
+                        self._parse_subtree(current)
+                        self._assert_and_cunsume(TokenType.BRACKET_RIGHT)
+                    else:
+                        current = root
+                        self._read_token()
                     flag = True
 
                 case TokenType.COMMENT:
